@@ -436,7 +436,8 @@ impl World {
         let scratch = if cfg.backend == crate::disk::Backend::DiskFs {
             static CTR: std::sync::atomic::AtomicU64 = std::sync::atomic::AtomicU64::new(0);
             let c = CTR.fetch_add(1, std::sync::atomic::Ordering::SeqCst);
-            let d = std::path::PathBuf::from(format!("/dev/shm/hcsim-{}-{}", std::process::id(), c));
+            let base = if std::path::Path::new("/dev/shm").is_dir() { "/dev/shm".to_string() } else { std::env::temp_dir().to_string_lossy().to_string() };
+            let d = std::path::PathBuf::from(format!("{base}/hcsim-{}-{}", std::process::id(), c));
             let _ = std::fs::remove_dir_all(&d);
             std::fs::create_dir_all(&d).expect("scratch dir");
             crate::exec::enable_tokio();
